@@ -477,7 +477,19 @@ func replayOf(c config, hist []op, obs []stepObs) map[string]any {
 }
 
 // judge executes hist on the real reorderer and checks the whole trace. It returns the final key.
-func (ru *runner) judge(c config, hist []op, st *stats) (key string, lastClass stepClass, ok bool) {
+// pviol is a violation found by one execution; it is reported by the caller in a deterministic order.
+type pviol struct {
+	key, what string
+	replay    any
+}
+
+func (ru *runner) report(vs []pviol) {
+	for _, v := range vs {
+		ru.r.Violation(v.key, v.what, v.replay)
+	}
+}
+
+func (ru *runner) judge(c config, hist []op, st *stats) (key string, lastClass stepClass, ok bool, found []pviol) {
 	init, obs, panicked, pv := execute(c, hist)
 	ru.execCount.Add(1)
 	st.execs++
@@ -523,16 +535,16 @@ func (ru *runner) judge(c config, hist []op, st *stats) (key string, lastClass s
 				continue
 			}
 			seen[v.key] = true
-			ru.r.Violation(v.key, fmt.Sprintf("MaxReordered=%d MaxPendingBytes=%d, %d pushes: %s", c.mr, c.mb, len(hist), v.what),
-				replayOf(c, hist, obs))
+			found = append(found, pviol{v.key, fmt.Sprintf("MaxReordered=%d MaxPendingBytes=%d, %d pushes: %s", c.mr, c.mb, len(hist), v.what),
+				replayOf(c, hist, obs)})
 		}
-		return "", lastClass, false
+		return "", lastClass, false, found
 	}
 	last := init
 	if len(obs) > 0 {
 		last = obs[len(obs)-1].snap
 	}
-	return stateKey(m, last), lastClass, true
+	return stateKey(m, last), lastClass, true, nil
 }
 
 type bfsResult struct {
@@ -569,6 +581,7 @@ type succ struct {
 	key string
 	sc  stepClass
 	ok  bool
+	vs  []pviol
 }
 
 // bfs: merged breadth-first search. The successors of a chunk of frontier states are computed in
@@ -577,7 +590,7 @@ type succ struct {
 // the result are the same on every run.
 func (ru *runner) bfs(c config, ops []op, depthCap int, ws []*stats) *bfsResult {
 	res := &bfsResult{visited: map[string]struct{}{}}
-	k0, _, _ := ru.judge(c, nil, ws[0])
+	k0, _, _, _ := ru.judge(c, nil, ws[0])
 	res.visited[k0] = struct{}{}
 	frontier := [][]op{nil}
 	const chunk = 2048
@@ -597,11 +610,8 @@ func (ru *runner) bfs(c config, ops []op, depthCap int, ws []*stats) *bfsResult 
 				ss := make([]succ, len(ops))
 				for k, o := range ops {
 					hh[len(h)] = o
-					key, sc, ok := ru.judge(c, hh, ws[w])
-					ss[k] = succ{key, sc, ok}
-					if ok && (sc.nOut >= 2 || sc.replaced) {
-						ru.sample(c, hh, sc)
-					}
+					key, sc, ok, vs := ru.judge(c, hh, ws[w])
+					ss[k] = succ{key, sc, ok, vs}
 				}
 				out[j] = ss
 			})
@@ -609,10 +619,15 @@ func (ru *runner) bfs(c config, ops []op, depthCap int, ws []*stats) *bfsResult 
 				for k, su := range ss {
 					res.trans++
 					if !su.ok {
-						continue // a violating state is reported and not expanded
+						ru.report(su.vs) // in (frontier, operation) order: the same replay on every run
+						continue         // a violating state is reported and not expanded
 					}
 					if su.sc.pendA > res.maxPending {
 						res.maxPending = su.sc.pendA
+					}
+					if (su.sc.nOut >= 2 || su.sc.replaced) && !ru.samplesFull.Load() {
+						hs := append(append([]op(nil), part[j]...), ops[k])
+						ru.sample(c, hs, su.sc)
 					}
 					if _, seen := res.visited[su.key]; !seen {
 						res.visited[su.key] = struct{}{}
@@ -651,12 +666,13 @@ func (ru *runner) sample(c config, h []op, sc stepClass) {
 }
 
 // raw enumerates every sequence of length 1..maxLen starting with `first`, without merging.
-func (ru *runner) raw(c config, ops []op, first []op, maxLen int, visited map[string]struct{}, st *stats) (unsound []op) {
+func (ru *runner) raw(c config, ops []op, first []op, maxLen int, visited map[string]struct{}, st *stats, found *[]pviol) (unsound []op) {
 	h := make([]op, len(first), max(maxLen, len(first)))
 	copy(h, first)
 	var rec func()
 	rec = func() {
-		key, _, ok := ru.judge(c, h, st)
+		key, _, ok, vs := ru.judge(c, h, st)
+		*found = append(*found, vs...)
 		if ok {
 			if _, in := visited[key]; !in && unsound == nil {
 				unsound = append([]op(nil), h...)
@@ -709,7 +725,7 @@ func main() {
 	depthCap := 14
 	rawPlans := []rawPlan{{ids, nLay, 3, 99, nil}, {ids, nLay, 4, 99, []int{5, 15}}}
 	if r.Thorough() {
-		rawPlans = []rawPlan{{ids, nLay, 5, 3, nil}}
+		rawPlans = []rawPlan{{ids, nLay, 4, 3, nil}, {ids, nLay, 5, 3, []int{5, 15, 100}}}
 		ids = []uint64{0, 1, 2, 3, 4, 5, 6, 7, M - 1, M}
 		nLay = 4
 		mrs = []int{0, 1, 2, 3, 4, 5}
@@ -818,6 +834,7 @@ func main() {
 		wclasses[w] = map[cfgClass]struct{}{}
 	}
 	var unsound atomic.Value
+	tviols := make([][]pviol, len(tasks))
 	parallelW(len(tasks), func(w, i int) {
 		t := tasks[i]
 		st := newStats()
@@ -828,9 +845,9 @@ func main() {
 		po := mkOps(t.plan.ids, t.plan.nLay)
 		if len(t.first) == 2 && t.first[1] == po[0] {
 			// the length-1 prefix is judged once, by the task of its first extension
-			ru.raw(cfgs[t.ci], po, t.first[:1], 1, results[t.ci].visited, st)
+			ru.raw(cfgs[t.ci], po, t.first[:1], 1, results[t.ci].visited, st, &tviols[i])
 		}
-		if u := ru.raw(cfgs[t.ci], po, t.first, maxLen, results[t.ci].visited, st); u != nil {
+		if u := ru.raw(cfgs[t.ci], po, t.first, maxLen, results[t.ci].visited, st, &tviols[i]); u != nil {
 			unsound.Store(replayOf(cfgs[t.ci], u, nil))
 		}
 		for k := range st.classes {
@@ -838,6 +855,9 @@ func main() {
 		}
 		wstats[w].merge(st)
 	})
+	for _, vs := range tviols {
+		ru.report(vs)
+	}
 	rawStats := newStats()
 	for w := range wstats {
 		rawStats.merge(wstats[w])
